@@ -193,7 +193,9 @@ func (s *Sim) yield(site string) {
 		}
 		return
 	}
-	time.Sleep(time.Duration(d) * time.Microsecond)
+	// an odd sub-microsecond residue keeps the wake-up off the instants of
+	// library timers (whole microseconds) and of scenario events
+	time.Sleep(time.Duration(d)*time.Microsecond + time.Duration(333+7*(len(site)%40)))
 }
 
 func (s *Sim) nowNs() int64 { return int64(time.Since(s.start)) }
